@@ -248,6 +248,48 @@ def E1_lmpdat_writer_reader(repo, clause):
         obs.append(Ob("E1", clause, r, cs_def[0], stripped,
                       "the comment re-attached to a coefficient line is the stripped comment (no trailing newline inside the stored text)", slot="comment-stripped",
                       positive=bool(ds) and not stripped))
+    # per-line state: the label / comment used for a line is (re)defined in the same iteration on every path
+    line_loops = [n for n in r.own_nodes() if isinstance(n, ast.For) and any(
+        isinstance(x, ast.Call) and isinstance(x.func, ast.Attribute) and x.func.attr == "append" and guard_eq(r, x, "Masses") for x in ast.walk(n))]
+    if line_loops:
+        lp = line_loops[0]
+        uses = []
+        for x in ast.walk(lp):
+            if isinstance(x, ast.Call) and isinstance(x.func, ast.Attribute) and x.func.attr == "append" and x.args:
+                for nm in ast.walk(x.args[0]):
+                    if isinstance(nm, ast.Name) and isinstance(nm.ctx, ast.Load) and "comment" in nm.id:
+                        uses.append(nm)
+        seen_vars = set()
+        for u in uses:
+            if u.id in seen_vars:
+                continue
+            seen_vars.add(u.id)
+            st = r.stmt_of(u)
+            defs_in = [d for d in ast.walk(lp) if isinstance(d, ast.Assign) and any(
+                isinstance(t_, ast.Name) and t_.id == u.id or (isinstance(t_, ast.Tuple) and any(isinstance(e_, ast.Name) and e_.id == u.id for e_ in t_.elts)) for t_ in d.targets)]
+            fresh = bool(defs_in) and r.cfg.must_pass(lp, defs_in, st)
+            obs.append(Ob("E1", clause, r, st, fresh,
+                          "per-line value `%s` is %s" % (u.id, "assigned afresh on every path of the iteration that uses it" if fresh else
+                                                         "NOT reassigned on every path of an iteration: a line without a '#' inherits the comment of an earlier line (e.g. an unlabelled Masses line takes the previous type's label)"),
+                          slot="per-line-state:%s" % u.id, positive=not fresh))
+    # label fallback: the labels read from the comments are replaced by the elements exactly when a label is MISSING (None)
+    fb = [n for n in r.own_nodes() if isinstance(n, ast.Assign) and len(n.targets) == 1 and isinstance(n.targets[0], ast.Name)
+          and "label" in n.targets[0].id and "element" in ast.unparse(n.value) and not isinstance(n.value, (ast.List, ast.ListComp))]
+    fb = [n for n in fb if norm_guards(r, n)]
+    if fb:
+        lab = fb[0].targets[0].id
+        gs = [(t, pol) for t, pol, k in norm_guards(r, fb[0]) if lab in ast.unparse(t)]
+        if gs:
+            t, pol = gs[-1]
+            txt = ast.unparse(t)
+            none_test = any(isinstance(x, ast.Constant) and x.value is None for x in ast.walk(t))
+            truthy = (not none_test) and any(isinstance(x, ast.Call) and call_name(x) in ("all", "any") for x in ast.walk(t)) or \
+                (isinstance(t, ast.Name) and t.id == lab)
+            obs.append(Ob("E1", clause, r, fb[0], none_test,
+                          "type labels fall back to the elements when `%s` is %s: %s" % (txt[:60], pol, "a test for a missing (None) label" if none_test else (
+                              "a TRUTH-VALUE test - an empty label (written as `# ` and read back as '') counts as missing, and ALL labels are then replaced by guessed elements"
+                              if truthy else "not recognisably a test for missing labels")),
+                          slot="label-fallback-test", positive=truthy, undecided=not truthy))
     # at most one '#': a single split into (line, comment)
     sp = [n for n in r.own_nodes() if isinstance(n, ast.Assign) and isinstance(n.targets[0], ast.Tuple) and isinstance(n.value, ast.Call)
           and call_name(n.value) == "split" and n.value.args and const_value(n.value.args[0]) == "#"]
@@ -1081,6 +1123,21 @@ def E_extra_fields_order(repo, clause):
     idx = [c for c in calls_in(mf) if isinstance(c.func, ast.Attribute) and c.func.attr == "index"]
     ok = len(idx) == 1 and ast.unparse(idx[0].func.value) == mf.params[0]
     obs.append(Ob("E12", clause, mf, idx[0] if idx else mf.node, ok, "the other's columns are placed at the position of their label in the merged label list", slot="by-label"))
+    # every non-empty result is the re-laid array: returning the other's array as it is keeps the other's column order
+    for i, r in enumerate(sorted([n for n in mf.own_nodes() if isinstance(n, ast.Return) and n.value is not None], key=lambda n: n.lineno)):
+        v = r.value
+        while isinstance(v, ast.Call) and call_name(v) in ("array", "asarray", "copy", "astype") and (v.args or isinstance(v.func, ast.Attribute)):
+            v = v.args[0] if v.args and call_name(v) in ("array", "asarray") else (v.func.value if isinstance(v.func, ast.Attribute) else v.args[0])
+        passthrough = isinstance(v, ast.Name) and len(mf.params) > 1 and v.id == mf.params[1]
+        relaid = False
+        if isinstance(v, ast.Name) and not passthrough:
+            relaid = any(isinstance(n, ast.Assign) and isinstance(n.targets[0], ast.Subscript) and isinstance(n.targets[0].value, ast.Name)
+                         and n.targets[0].value.id == v.id for n in mf.own_nodes())
+        filled = isinstance(v, ast.Call) and call_name(v) == "full"
+        obs.append(Ob("E12", clause, mf, r, relaid or filled,
+                      "_match_fields returns %s" % ("the array whose columns were placed by label" if relaid else ("an all-'.' block (the other has no rows)" if filled else (
+                          "the other structure's array UNCHANGED: its columns stay in the other's label order, so values land under the wrong label whenever the two label lists are ordered differently"
+                          if passthrough else "an unrecognised value"))), slot="by-label-return:%d" % i, positive=passthrough, undecided=not passthrough))
     fills = [c for c in ast.walk(fn.node) if isinstance(c, ast.Call) and call_name(c) == "full" and len(c.args) >= 2]
     ok = len(fills) >= 3 and all(const_value(c.args[1]) == "." for c in fills)
     obs.append(Ob("E12", clause, fn, fills[0] if fills else fn.node, ok, "missing values are filled with '.' (%d fill sites)" % len(fills), slot="dot-fill"))
